@@ -49,7 +49,7 @@ DERIVES = ["Pod", "NoUninit", "AnyBitPattern", "Zeroable", "TransparentWrapper"]
 
 def struct_family(tier, seed):
     rnd = random.Random(seed * 7919 + 13)
-    n = 260 if tier == "quick" else 3000
+    n = 260 if tier == "quick" else 1500
     defs = []
     # a fixed corpus first: the known-finding shape, the documented compile_fail cases, edge reprs
     corpus = [
@@ -150,9 +150,30 @@ debug-assertions = false
 '''
 
 
+SHARD = 900          # modules per generated crate: rustc's memory and time grow faster than linearly
+SHARDS_IN_PARALLEL = 4
+
+
 def compile_verdicts(name, prelude, modules, max_rounds=8):
     """modules: list of (modname, rust text of the module body incl. `pub fn facts() -> String`).
-    Returns (verdicts {modname: None | first error text}, facts {modname: str}, error or None)."""
+    Returns (verdicts {modname: None | first error text}, facts {modname: str}, error or None).
+    Large families are split over several crates (same prelude), a few built at a time."""
+    if len(modules) <= SHARD:
+        return _compile_verdicts_one(name, prelude, modules, max_rounds)
+    from concurrent.futures import ThreadPoolExecutor
+    chunks = [modules[k:k + SHARD] for k in range(0, len(modules), SHARD)]
+    with ThreadPoolExecutor(max_workers=SHARDS_IN_PARALLEL) as ex:
+        results = list(ex.map(lambda kc: _compile_verdicts_one("%s-p%d" % (name, kc[0]), prelude, kc[1], max_rounds), enumerate(chunks)))
+    verdicts, facts = {}, {}
+    for k, (v, f, err) in enumerate(results):
+        if err:
+            return verdicts, facts, "shard %d of %d: %s" % (k, len(chunks), err)
+        verdicts.update(v)
+        facts.update(f)
+    return verdicts, facts, None
+
+
+def _compile_verdicts_one(name, prelude, modules, max_rounds=8):
     d = os.path.join(CACHE, "derivefam-" + name)
     os.makedirs(os.path.join(d, "src"), exist_ok=True)
     with open(os.path.join(d, "Cargo.toml"), "w") as f:
@@ -463,7 +484,7 @@ def literal(rnd, v, ty, allow_suffix=True, form=None):
 
 def enum_family(tier, seed):
     rnd = random.Random(seed * 104729 + 7)
-    n = 180 if tier == "quick" else 2500
+    n = 180 if tier == "quick" else 1200
     defs = []
     reprs = [(k, t) for k in ("int",) for t in INT_TYPES] * 3 + [("C", None), ("none", None)] + [("Cint", t) for t in ("u8", "i16", "u32", "i64")]
     # corpus: the shapes the seeded changes of this kind need
@@ -779,10 +800,20 @@ def checked_family(tier, seed):
     n = 70 if tier == "quick" else 600
     L = [("leaf",) + x for x in CK_LEAVES]
 
+    def has_align(t):
+        """an align(N) modifier anywhere inside t (rustc refuses a packed type that contains one: E0588)"""
+        if t[0] == "leaf":
+            return False
+        if t[0] == "struct":
+            return t[2] != 0 or any(has_align(f) for f in t[3])
+        return (len(t) > 4 and t[4] != 0) or any(has_align(f) for v in t[3] for f in v[1])
+
     def rand_struct(depth):
         nf = rnd.randint(0, 4)
         fs = [rand_ty(depth + 1) for _ in range(nf)]
         mod = rnd.choice([(0, 0), (0, 0), (0, 0), (1, 0), (2, 0), (0, 8), (0, 16)])
+        if mod[0] and any(has_align(f) for f in fs):
+            mod = (0, 0)       # stay inside what rustc accepts as a definition
         return ("struct", mod[0], mod[1], fs)
 
     def rand_enum(depth):
